@@ -64,36 +64,51 @@ theorem authDecision_some (job : Job) (req : Request) (rep : Reply) (d : Decisio
   repeat' split at h
   all_goals (cases h; try rfl)
 
-/-- when a block refuses, that is the answer (unless an earlier check already answered "do not cache") -/
+/-- either the released-entry answer, or what the reply itself allows (both source variants) -/
+theorem reusableReply_cases (cfg : Config) (job : Job) (e : Entry) (req : Request) (rep : Reply) :
+    (reusableReply cfg job e req rep).answer = .doNotCacheButShare ∨
+    reusableReply cfg job e req rep = replyDecision cfg job req rep := by
+  unfold reusableReply
+  split <;> split <;> first | (left; rfl) | (right; rfl)
+
+theorem replyDecision_of_ccDecision (cfg : Config) (job : Job) (req : Request) (rep : Reply)
+    (h : (ccDecision cfg job req rep).isSome = true) : (replyDecision cfg job req rep).answer = .reuseNot := by
+  unfold replyDecision
+  split
+  · rfl
+  · split
+    · rfl
+    · split
+      · rename_i d hd; exact ccDecision_some _ _ _ _ _ hd
+      · rename_i hn; rw [hn] at h; cases h
+
+theorem replyDecision_of_authDecision (cfg : Config) (job : Job) (req : Request) (rep : Reply)
+    (h : (authDecision job req rep).isSome = true) : (replyDecision cfg job req rep).answer = .reuseNot := by
+  unfold replyDecision
+  split
+  · rfl
+  · split
+    · rfl
+    · split
+      · rename_i d hd; exact ccDecision_some _ _ _ _ _ hd
+      · split
+        · rename_i d hd; exact authDecision_some _ _ _ _ hd
+        · rename_i hn; rw [hn] at h; cases h
+
+/-- when a block refuses, that is the answer (unless the pinned variant already answered "released: do not cache") -/
 theorem reusableReply_of_ccDecision (cfg : Config) (job : Job) (e : Entry) (req : Request) (rep : Reply)
     (h : (ccDecision cfg job req rep).isSome = true) :
     (reusableReply cfg job e req rep).answer = .reuseNot ∨ (reusableReply cfg job e req rep).answer = .doNotCacheButShare := by
-  unfold reusableReply
-  split
-  · right; rfl
-  · split
-    · left; rfl
-    · split
-      · left; rfl
-      · split
-        · rename_i d hd; left; exact ccDecision_some _ _ _ _ _ hd
-        · rename_i hn; rw [hn] at h; cases h
+  rcases reusableReply_cases cfg job e req rep with hc | hc
+  · right; exact hc
+  · left; rw [hc]; exact replyDecision_of_ccDecision cfg job req rep h
 
 theorem reusableReply_of_authDecision (cfg : Config) (job : Job) (e : Entry) (req : Request) (rep : Reply)
     (h : (authDecision job req rep).isSome = true) :
     (reusableReply cfg job e req rep).answer = .reuseNot ∨ (reusableReply cfg job e req rep).answer = .doNotCacheButShare := by
-  unfold reusableReply
-  split
-  · right; rfl
-  · split
-    · left; rfl
-    · split
-      · left; rfl
-      · split
-        · rename_i d hd; left; exact ccDecision_some _ _ _ _ _ hd
-        · split
-          · rename_i d hd; left; exact authDecision_some _ _ _ _ hd
-          · rename_i hn; rw [hn] at h; cases h
+  rcases reusableReply_cases cfg job e req rep with hc | hc
+  · right; exact hc
+  · left; rw [hc]; exact replyDecision_of_authDecision cfg job req rep h
 
 /-- ENTRY_NEGCACHED appears only through the "cache negatively" answer -/
 theorem applyDecision_negCached (e : Entry) (a : Answer) (k : Bool) (h : (applyDecision e a k).negCached = true) :
@@ -110,10 +125,11 @@ theorem statusDecision_cacheNegatively (cfg : Config) (rep : Reply) (h : (status
 /-- "cache negatively" needs negative_ttl > 0 -/
 theorem reusableReply_cacheNegatively (cfg : Config) (job : Job) (e : Entry) (req : Request) (rep : Reply)
     (h : (reusableReply cfg job e req rep).answer = .cacheNegatively) : cfg.negativeTtl > 0 := by
-  unfold reusableReply at h
-  split at h
-  · cases h
-  · split at h
+  rcases reusableReply_cases cfg job e req rep with hc | hc
+  · rw [hc] at h; cases h
+  · rw [hc] at h
+    unfold replyDecision at h
+    split at h
     · cases h
     · split at h
       · cases h
